@@ -338,13 +338,26 @@ func LoadFindings() Findings {
 // Filter splits violations into new and known (open) ones.
 func Filter(vs []Violation, fs Findings) (newV, knownV []Violation) {
 	open := map[string]bool{}
+	var prefixes []string // a key ending in '*' names a whole call-site class (same root cause, e.g. one per end state)
 	for _, f := range fs.Findings {
-		if f.Status == "open" {
+		if f.Status != "open" {
+			continue
+		}
+		if strings.HasSuffix(f.Key, "*") {
+			prefixes = append(prefixes, f.Property+"|"+strings.TrimSuffix(f.Key, "*"))
+		} else {
 			open[f.Property+"|"+f.Key] = true
 		}
 	}
 	for _, v := range vs {
-		if open[v.Property+"|"+v.Key] {
+		k := v.Property + "|" + v.Key
+		known := open[k]
+		for _, p := range prefixes {
+			if strings.HasPrefix(k, p) {
+				known = true
+			}
+		}
+		if known {
 			knownV = append(knownV, v)
 		} else {
 			newV = append(newV, v)
